@@ -18,7 +18,7 @@
    [rows 0 f] : pre-order list of (parent id, node id, payload) of a forest;
    [ins_rows blk l l'] : l' is l with the block blk inserted, all else in place. *)
 From Coq Require Import List ZArith Bool Arith Lia Permutation.
-From NT Require Import Sx Rose Surgery SurgeryFacts Machine WF MachineFacts Effects FrameTrees CopyFacts CopyMulti CopyWF.
+From NT Require Import Sx Rose Surgery SurgeryFacts Machine WF MachineFacts Effects FrameTrees CopyFacts CopyMulti CopyWF CopyLocal.
 Import ListNotations.
 
 (* ---- the recursive copy (Node._add_from) ---- *)
@@ -272,6 +272,31 @@ Theorem C07_tree_copy_independent : forall w s c w1,
 Proof. exact tree_copy_independent. Qed.
 Print Assumptions C07_tree_copy_independent.
 
+(* ---- locality: no operation READS a tree outside its footprint ---- *)
+(* [op_footprint o] = the tree o works on + (copy operations) the tree it reads its source from.
+   [same_on S w1 w2] : w1 and w2 have the same allocator and the same trees at the indexes in S.
+   [sim S x1 x2] : same result, and the worlds afterwards are again [same_on S].
+   Whatever the other trees of the world are, an operation does the same thing. *)
+Theorem C07_step_local : forall S w1 w2 o ti,
+  op_tree o = Some ti -> incl (op_footprint o) S -> same_on S w1 w2 -> sim S (step w1 o) (step w2 o).
+Proof. exact step_local. Qed.
+Print Assumptions C07_step_local.
+
+Theorem C07_new_tree_local : forall w1 w2 o,
+  op_tree o = None -> length (trees w1) = length (trees w2) -> same_on (op_footprint o) w1 w2 ->
+  sim [length (trees w1)] (step w1 o) (step w2 o).
+Proof. exact new_tree_local. Qed.
+Print Assumptions C07_new_tree_local.
+
+(* a history on one tree (e.g. on a copy) yields the same results and the same tree in any two worlds that
+   agree on this tree and the allocator - in particular whatever happened to the source in between *)
+Theorem C07_history_local : forall ti ops w1 w2,
+  Forall (fun o => op_tree o = Some ti /\ (op_reads o = None \/ op_reads o = Some ti)) ops ->
+  same_on [ti] w1 w2 ->
+  results ops w1 = results ops w2 /\ same_on [ti] (run ops w1) (run ops w2).
+Proof. exact history_local. Qed.
+Print Assumptions C07_history_local.
+
 (* ---- non-vacuity: a typed source with a clone pair, explicit data_ids and metadata ---- *)
 Definition dA : dat := D 1 1 11 true [97%Z].
 Definition dB : dat := D 2 2 22 true [98%Z].
@@ -384,3 +409,15 @@ Example C07_same_tree_nonvacuous :
     ids (forest_of (nth 0 (trees w7s) dflt)) = [1; 2; 4; 3; 5; 6] /\
     wf_world_b w7 = true /\ wf_world_b w7c = true /\ wf_world_b w7s = true.
 Proof. conjs; vm_compute; reflexivity. Qed.
+
+(* locality: the history on the copy does the same to the copy whether or not the source's metadata was edited first *)
+Definition w7c' : world := run [OMeta 0 2 (MClear None); OMeta 0 1 (MSet [122%Z] (Some (A 9%Z)))] w7c.
+Example C07_local_nonvacuous :
+    same_on [2] w7c w7c' /\ get_tree w7c 0 <> get_tree w7c' 0 /\
+    results on_copy w7c = results on_copy w7c' /\ get_tree (run on_copy w7c) 2 = get_tree (run on_copy w7c') 2 /\
+    Forall (fun o => op_tree o = Some 2 /\ (op_reads o = None \/ op_reads o = Some 2)) on_copy.
+Proof.
+  split; [split; [vm_compute; reflexivity|intros t [<-|[]]; vm_compute; reflexivity]|].
+  split; [vm_compute; discriminate|]. split; [vm_compute; reflexivity|]. split; [vm_compute; reflexivity|].
+  repeat constructor.
+Qed.
